@@ -15,7 +15,7 @@ FLAGS = ["-O1", "-g", "-UNDEBUG", "-fsanitize=address,undefined", "-fno-sanitize
 PLAN = [("int", ["int", "long"]), ("uns", ["uns"]), ("flt", ["float", "double"]), ("fltc", ["fcoarse"]), ("str", ["str"])]
 ASSUMPTIONS = [
     "floating point values are multiples of 1/4 and the tolerances are 0.3 and 1.5 (the latter larger than one increment), so every comparison and operation is exact in binary",
-    "operations stay inside the model's value domain (no overflow, no division by zero)",
+    "operations stay inside the model's value domain (no integer overflow, no integer division by zero); floating point instantiations also reach 2^24 / 2^53 (where adding 0.25 or 0.5 is absorbed) and the infinities produced by dividing a finite non-zero value by zero",
     "integer instantiations also receive double operands k/2 (k in -1, 1, 3) through += -= *= /=: the result is the built-in one (computed in double, truncated)",
     "exhaustive over the stated value domains, operand sets and two subscribers; other values are not sampled",
 ]
@@ -44,7 +44,7 @@ def op_name(g, ei):
 def step_line(g, ei, kind):
     _, _, name, args = g.edges[ei]
     name = op_name(g, ei)
-    if name in ("Assign", "Add", "Sub", "Mul", "Div", "Concat", "AddF", "SubF", "MulF", "DivF"):
+    if name in ("Assign", "Add", "Sub", "Mul", "Div", "Concat", "AddF", "SubF", "MulF", "DivF", "AddAbsorbed"):
         return "S op=%s v=%s" % (name, enc(kind, args[0]))
     if name == "Apply":
         return "S op=Apply f=%s" % args[0]
